@@ -408,7 +408,15 @@ def SafeLocal : Bytes → Prop
   | c :: d :: _ => c = cSlash ∧ d ≠ cSlash ∧ d ≠ cBackslash
   | [] => False
 
-def GoodPrefix (pfx : Bytes) : Prop := pfx = [] ∨ (SafeLocal pfx ∧ 2 ≤ pfx.length)
+/-- A sane mount point: none, or itself an origin-relative path. -/
+def GoodPrefix (pfx : Bytes) : Prop := pfx = [] ∨ SafeLocal pfx
+
+theorem singleSlash_safeLocal (u : Bytes) (h : singleSlash u = true) : SafeLocal u := by
+  match u, h with
+  | [c], h => simpa [singleSlash, SafeLocal] using h
+  | c :: d :: r, h =>
+    simp only [singleSlash, Bool.and_eq_true, beq_iff_eq, bne_iff_ne, ne_eq] at h
+    exact ⟨h.1.1, h.1.2, h.2⟩
 
 theorem safeLocal_of_prefix (p s : Bytes) (hp : SafeLocal p) (h2 : 2 ≤ p.length)
     (hs : startsWith p s = true) : SafeLocal s := by
@@ -428,9 +436,8 @@ theorem fallback_safe (pfx : Bytes) (hg : GoodPrefix pfx) :
   unfold fallback
   rcases hg with h | h
   · subst h; simp [SafeLocal, startsWith]
-  · have : pfx ≠ [] := by intro e; rw [e] at h; exact absurd h.2 (by decide)
+  · have : pfx ≠ [] := by intro e; rw [e] at h; exact h
     simp only [this, ne_eq, not_false_eq_true, if_true]
-    exact ⟨h.1, by simp [startsWith]⟩
-
+    exact ⟨h, by simp [startsWith]⟩
 
 end Vgi.OAuth
